@@ -142,6 +142,25 @@ Theorem C03_errors_surface :
 Proof. exact find_roots_e_success. Qed.
 Print Assumptions C03_errors_surface.
 
+(* the same below a caller-supplied FindPredecessors (its own call into the source is the first
+   operation, every filter fetch follows) *)
+Theorem C03_errors_surface_custom :
+  forall (fuel : nat) (s : source) (custom : nat -> list desc) (fs : list filter) (limit : Z)
+         (node : desc) (k : nat) (roots : list desc),
+    find_roots_custom_e fuel s custom fs limit node k = ROk roots ->
+    find_roots_fp fuel (find_preds_custom s custom fs) limit node = Some roots.
+Proof. exact find_roots_custom_e_success. Qed.
+Print Assumptions C03_errors_surface_custom.
+
+(* totality: with the runner's fuel the error-aware findRoots ends with a root set or an error,
+   for every armed fault, on every finite source *)
+Theorem C03_errors_total :
+  forall (s : source) (fs : list filter) (limit : Z) (node : desc) (n k : nat),
+    (forall x p, x < n -> In p (s_preds s x) -> d_id p < n) -> d_id node < n ->
+    find_roots_e (fuel_for s n) s fs limit node k <> RFuel.
+Proof. exact find_roots_e_total. Qed.
+Print Assumptions C03_errors_total.
+
 Theorem C03_no_fault_agrees :
   forall (fuel : nat) (s : source) (fs : list filter) (limit : Z) (node : desc),
     find_roots_e fuel s fs limit node 0 =
